@@ -173,6 +173,78 @@ def run(tier, seed):
                 break
         if why:
             run.fail({"schema": s, "values": [to_wire(v) for v in data], "opts": opts, "tags": ["stream"]}, why, kind="oracle")
+    # ---- an output stream that refuses the write (read-only file object, closed stream, a device that is full), the error
+    # caught, then the next call on a good stream: that call writes its own datum and nothing else
+    class _Refusing(io.RawIOBase):
+        def writable(self):
+            return True
+
+        def write(self, b):
+            raise OSError("no space left on device")
+    closed = io.BytesIO()
+    closed.close()
+    for ci, (s, data, opts, parsed) in enumerate(cases[:scale(tier, 120)]):
+        if len(data) < 2:
+            continue
+        try:
+            ps = fastavro.parse_schema(json.loads(json.dumps(s)))
+            ref = io.BytesIO()
+            fastavro.schemaless_writer(ref, ps, data[1], **impl.wopts_kw(opts))
+            ref0 = io.BytesIO()
+            fastavro.schemaless_writer(ref0, ps, data[0], **impl.wopts_kw(opts))
+        except Exception:
+            continue
+        if not ref0.getvalue():
+            continue            # a datum of zero bytes never reaches the stream
+        for kind, bad in (("refusing", _Refusing()), ("closed", closed), ("read-only", io.BufferedReader(io.BytesIO(b"")))):
+            run.count({"schema": s, "stream": kind, "tags": ["refused-write-then-retry"]}, False, ["refused-write:" + kind])
+            try:
+                fastavro.schemaless_writer(bad, ps, data[0], **impl.wopts_kw(opts))
+                continue        # (the stream took it after all)
+            except Exception:
+                pass
+            good = io.BytesIO()
+            try:
+                fastavro.schemaless_writer(good, ps, data[1], **impl.wopts_kw(opts))
+                ok = good.getvalue() == ref.getvalue()
+            except Exception as e:  # noqa
+                ok = False
+            if not ok:
+                run.fail({"schema": s, "values": [to_wire(v) for v in data[:2]], "opts": opts, "stream": kind, "written": good.getvalue().hex()[:200],
+                          "expected": ref.getvalue().hex()[:200], "tags": ["refused-write-then-retry"]},
+                         "after a write that the output stream refused, the next schemaless_writer call does not write exactly its own datum", kind="oracle")
+                break
+    # ---- namesakes: a null-namespace type and a namespaced one of the same simple name, the null-namespace one defined first,
+    # referred to by simple name from inside the namespace (by the rules: the namespaced one)
+    for variant in range(6):
+        status0 = {"type": "enum", "name": "Status", "symbols": ["UP", "DOWN"]} if variant % 2 == 0 else \
+            {"type": "record", "name": "Status", "fields": [{"name": "host", "type": "string"}]}
+        status1 = {"type": "record", "name": "Status", "namespace": "plant", "fields": [{"name": "v", "type": "int"}, {"name": "kids", "type": {"type": "array", "items": "Status"}}]}
+        dev = {"type": "record", "name": "Device", "namespace": "plant", "fields": [{"name": "first", "type": status1}, {"name": "again", "type": "Status"},
+                                                                                   {"name": "opt", "type": ["null", "Status"]}]}
+        if variant < 2:
+            sch = {"type": "record", "name": "Top", "fields": [{"name": "g", "type": status0}, {"name": "d", "type": dev}]}
+            g = "UP" if variant % 2 == 0 else {"host": "localhost"}
+            datum = {"g": g, "d": {"first": {"v": 1, "kids": [{"v": 2, "kids": []}]}, "again": {"v": 3, "kids": []}, "opt": {"v": 4, "kids": []}}}
+        elif variant < 4:
+            sch = [status0, dev]
+            datum = {"first": {"v": 1, "kids": [{"v": 2, "kids": []}]}, "again": {"v": 3, "kids": []}, "opt": None}
+        else:
+            sch = {"type": "record", "name": "Top", "fields": [{"name": "d", "type": dev}, {"name": "g", "type": status0}]}
+            g = "UP" if variant % 2 == 0 else {"host": "localhost"}
+            datum = {"d": {"first": {"v": 1, "kids": []}, "again": {"v": 3, "kids": []}, "opt": {"v": 4, "kids": []}}, "g": g}
+        run.count({"schema": sch, "tags": ["namesakes"]}, True, ["namesakes"])
+        try:
+            fo = io.BytesIO()
+            fastavro.schemaless_writer(fo, json.loads(json.dumps(sch)), datum)
+            back = fastavro.schemaless_reader(io.BytesIO(fo.getvalue()), json.loads(json.dumps(sch)))
+            okk = canon(to_wire(back)) == canon(to_wire(datum))
+            err = None
+        except Exception as e:  # noqa
+            okk, err = False, repr(e)[:200]
+        if not okk:
+            run.fail({"schema": sch, "value": to_wire(datum), "error": err, "tags": ["namesakes"]},
+                     "a datum of a schema with a null-namespace type and a namespaced namesake does not round-trip", kind="oracle")
     # ---- one unparsed schema OBJECT used, edited in place, used again: every call sees the object's current content
     import copy
     import random as _random
